@@ -1,7 +1,83 @@
 // harness commands owned by property C13
 #![allow(unused_imports, dead_code)]
+use std::path::PathBuf;
+
 use serde_json::{json, Value};
 
-pub fn dispatch(_cmd: &str, _req: &Value) -> Option<Value> {
-    None
+// c13tree {files:[[path,content],..], main_path?:[..], target?}
+//   multi-file project through the public tree API: SourceTree::new + prql_to_pl_tree + pl_to_rq_tree
+//   + rq_to_sql; errors of every stage are composed against the tree (ErrorMessages::composed),
+//   exactly what the CLI does.  Answer: {ok:sql} | {err:[..], stage} ; plus "ids": {source_id: path}
+//   (SourceTree::get_path over 0..n+2), so the check can name the file a span refers to.
+fn cmd_tree(req: &Value) -> Value {
+    let files: Vec<(PathBuf, String)> = match req.get("files") {
+        Some(Value::Array(a)) => a
+            .iter()
+            .filter_map(|p| {
+                let p = p.as_array()?;
+                Some((PathBuf::from(p.first()?.as_str()?), p.get(1)?.as_str()?.to_string()))
+            })
+            .collect(),
+        _ => vec![],
+    };
+    let n = files.len();
+    let tree = prqlc::SourceTree::new(files, None);
+    let mut ids = serde_json::Map::new();
+    for i in 0..(n as u16 + 2) {
+        if let Some(p) = tree.get_path(i) {
+            ids.insert(i.to_string(), json!(p.to_string_lossy()));
+        }
+    }
+    let main_path: Vec<String> = match req.get("main_path") {
+        Some(Value::Array(a)) => a.iter().filter_map(|x| x.as_str().map(|s| s.to_string())).collect(),
+        _ => vec![],
+    };
+    let o = match crate::options(req) {
+        Ok(o) => o,
+        Err(v) => return v,
+    };
+    let mut stage = "parse";
+    let r = prqlc::prql_to_pl_tree(&tree)
+        .and_then(|pl| {
+            stage = "resolve";
+            prqlc::pl_to_rq_tree(pl, &main_path, &["db".to_string()]).map_err(|e| e.composed(&tree))
+        })
+        .and_then(|rq| {
+            stage = "sql";
+            prqlc::rq_to_sql(rq, &o).map_err(|e| e.composed(&tree))
+        });
+    let mut v = match r {
+        Ok(sql) => json!({ "ok": sql }),
+        Err(e) => crate::errs(e),
+    };
+    v["stage"] = json!(stage);
+    v["ids"] = Value::Object(ids);
+    v
+}
+
+// c13lex {src}: prql_to_tokens errors (not composed: raw char spans of convert_lexer_error) and,
+// when lexing succeeds, the byte spans of the tokens (what the parser's map_span reads).
+fn cmd_lexspans(req: &Value) -> Value {
+    match prqlc::prql_to_tokens(crate::s(req, "src")) {
+        Ok(t) => {
+            let v: Vec<Value> = t
+                .0
+                .iter()
+                .map(|t| {
+                    let skip = matches!(t.kind, prqlc::lr::TokenKind::Comment(_) | prqlc::lr::TokenKind::LineWrap(_));
+                    json!({"k": format!("{}", t.kind), "s": t.span.start, "e": t.span.end, "skip": skip})
+                })
+                .collect();
+            json!({ "ok": v })
+        }
+        Err(e) => crate::errs(e),
+    }
+}
+
+pub fn dispatch(cmd: &str, req: &Value) -> Option<Value> {
+    match cmd {
+        "c13tree" => Some(cmd_tree(req)),
+        "c13lex" => Some(cmd_lexspans(req)),
+        _ => None,
+    }
 }
